@@ -145,6 +145,12 @@ namespace c18
                 C18_ISAL(xsimd::avx512vnni<xsimd::avx512bw>)
                 C18_ISAL(xsimd::avx512vnni<xsimd::avx512vbmi2>)
                 C18_ISAL(xsimd::default_arch)
+#if XSIMD_WITH_EMULATED
+                // architectures that do not *require* alignment still have one (emulated<N>: 8): the predicate is about the multiple, not the requirement
+                C18_ISAL(xsimd::emulated<128>)
+                C18_ISAL(xsimd::emulated<256>)
+                C18_ISAL(xsimd::emulated<512>)
+#endif
 #undef C18_ISAL
                 // default template argument
                 ++o.evaluated;
